@@ -227,6 +227,59 @@ def run(rep, tier, driver):
             if isinstance(a, int) and a < 1:
                 rep.violation("input", {"iupac": s, "opts": opts, "query": q, "flags": fl}, {"count": a}, ">= 1 (every glycan contains itself / its root)", key="self:%s:%s" % (s, sorted(fl)))
 
+    # linkage labels in every shape the grammar allows - no anomer '(1-4)', unknown anomer '(?1-4)', unknown parent position '(a1-?)',
+    # two-digit positions, parenthesis-free notations: the glycan must contain itself and each of its parent-child sub-chains, with and
+    # without edge matching
+    import re as _re
+    lcases = []
+
+    def _variant(text, how):
+        def f(m):
+            a, c, p = m.group(1), m.group(2), m.group(3)
+            if how == "no-anomer":
+                return "(%s-%s)" % (c, p)
+            if how == "q-anomer":
+                return "(?%s-%s)" % (c, p)
+            if how == "q-parent":
+                return "(%s%s-?)" % (a, c)
+            if how == "mixed":
+                return rng.choice(["(%s-%s)", "(?%s-%s)"]) % (c, p) if rng.random() < 0.6 else m.group(0)
+            return m.group(0)
+        return _re.sub(r"\(([ab])(\d+)-(\d+)\)", f, text)
+
+    for i in range(30 if tier == "quick" else 300):
+        t = cv.random_tree(rng, rng.randint(2, 6), chain_bias=0.5)
+        if t.size() < 2:
+            continue
+        how = ["no-anomer", "q-anomer", "q-parent", "mixed"][i % 4]
+        s = _variant(gen.render(t, "full"), how)
+        subs = []
+
+        def paths2(node):
+            for l, k in node.kids:
+                subs.append(_variant(gen.render(gen.T(node.name, [(l, gen.T(k.name))]), "full"), how if how != "mixed" else "no-anomer"))
+                paths2(k)
+        paths2(t)
+        qs = [[q, dict(m, match_nodes=True, **({"match_edges": True} if e else {}))] for q in [s] + (subs[:3] if how != "mixed" else []) for m in modes for e in (False, True)]
+        lcases.append((s, qs, {"full": False}, how))
+    for s0 in ["Neu5Gc(a2-11)Neu5Gc", "Mana1-4Glc", "Mana4Glc", "Man(a1-3)[Man(1-6)]Man(?1-4)GlcNAc", "Fruf(2-1)Glc", "Gal(1-4)Glc(1-4)Glc"]:
+        lcases.append((s0, [[s0, dict(m, match_nodes=True, **({"match_edges": True} if e else {}))] for m in modes for e in (False, True)], {"full": False}, "fixed"))
+    louts = pmap(_self_job, [(s, qs, o) for s, qs, o, _ in lcases], chunk=1)
+    for (s, qs, opts, how), o in zip(lcases, louts):
+        res = o["result"]
+        rep.count("self-label-" + how)
+        if o["exc"] or res is None:
+            rep.case(canon=["label", s], nontrivial=False)
+            continue
+        n = len(qs)
+        before = res[:n]
+        parsed = any(isinstance(b, int) for b in before)
+        rep.case(canon=["label", s], nontrivial=parsed)
+        for (q, fl), b in zip(qs, before):
+            if isinstance(b, int) and b < 1:
+                rep.violation("input", {"iupac": s, "opts": opts, "query": q, "flags": fl}, {"count": b},
+                              ">= 1 (every glycan contains itself and each of its own sub-chains, whatever the shape of its linkage labels)", key="self:%s:%s:%s" % (s, q, sorted(fl)))
+
     # the Lean Model of recipe_equality (matchBasic / matchSome: C16_some_le_basic_partial is about them) against glycan.py
     import queryx
     mnames = list(cv.names) + [c + x for c in ("Glc", "Gal", "Man", "Neu", "Kdo") for x in ("NAc", "2NAc", "6S", "A", "5Ac", "N", "3Me6S", "f", "p a")] + \
